@@ -65,16 +65,33 @@ def tmpl_key(t, strip):
 
 
 def stripping_patterns(lib):
-    """constant Regex::new patterns beginning with ESC: the repo's own definition of an SGR sequence"""
+    """constant Regex::new patterns beginning with ESC: the repo's own definition of an SGR sequence.
+    A pattern whose only uses are rewrites with a non-empty replacement is no stripper (it is judged by COL-5 instead)."""
     out = []
     for b in lib.bodies:
         d = None
+        cands = []
         for bi, t in b.calls():
             if callee_name(t) == "regex::Regex::new":
                 d = d or local.Defs(b)
                 v = local.const_value(local.peel(d.operand(t["args"][0])))
                 if isinstance(v, str) and v.startswith("\x1b"):
-                    out.append((b, t, v))
+                    cands.append((t, v))
+        if not cands:
+            continue
+        uses = {}
+        for bi, t in b.calls():
+            if callee_name(t) in ("regex::Regex::replace_all", "regex::Regex::replace", "regex::Regex::replacen") and len(t["args"]) >= 3:
+                recv = d.operand(t["args"][0])
+                rep = local.const_value(local.peel(d.operand(t["args"][-1])))
+                for x in local.walk(recv):
+                    if x[0] == "call" and x[1] == "regex::Regex::new":
+                        pv = local.const_value(local.peel(x[2][0])) if x[2] else None
+                        uses.setdefault(pv, []).append(rep)
+        for t, v in cands:
+            if v in uses and all(r != "" for r in uses[v]):
+                continue
+            out.append((b, t, v))
     return out
 
 
@@ -232,6 +249,73 @@ def col3(ctx, lib):
         ctx.violation("COL-3", (writer.path, "template"), "the SGR writer's template is %s, expected ESC[<code>m<value>ESC[0m" % [ccp.show(l.value) for l in ls], writer.loc())
 
 
+ESC_IN_REGEX = re.compile(r"\x1b|\\x1[bB]|\\x\{0*1[bB]\}|\\u\{0*1[bB]\}|\\u001[bB]|\\U0000001[bB]|\\e")
+
+
+def col5(ctx, lib, roles):
+    """COL-5: every rewrite pass applied to the assembled output string is blind to colour codes."""
+    from . import fmtmodel
+    r = fmtmodel.regexp_fmt_leaves(ctx, lib, roles, rid="COL-5")
+    if not r:
+        ctx.anchor_lost("COL-5", "<RegExp as Display>::fmt")
+        return
+    b = r["body"]
+    seen = {}
+    coloured = 0
+    for fl in r["leaves"]:
+        if fl.flags.get("colour") is False:
+            continue
+        coloured += 1
+        text = "".join(p for p in fl.base.parts if isinstance(p, str))
+        alphabet = set("".join(fmtmodel.SGR.findall(text))) or set("\x1b[;m0123456789")
+        for (callee, args), (_, chars, rep) in zip(fl.wrappers, fmtmodel.wrapper_patterns(fl)):
+            key = "%s(%s)" % (callee.split("::")[-1], ", ".join(ccp.show(a) if not isinstance(a, tuple) else repr(a[1]) for a in args))
+            if key in seen:
+                continue
+            verdict = None
+            if callee in fmtmodel.REGEX_REPLACERS:
+                pat = args[0][1] if args and isinstance(args[0], tuple) else None
+                if pat is None:
+                    verdict = ("undecided", "regex rewrite of the assembled output with a pattern that is not a constant")
+                elif ESC_IN_REGEX.search(pat):
+                    verdict = ("violation", "the pattern %r of a rewrite applied to the already colourised output mentions ESC: it either consumes the introducer of a "
+                                            "colour code or decides by the character after a literal ESC, which differs between the highlighted output "
+                                            "(next character: ESC of a colour code) and the plain one (next character: e.g. the '[' of a character class)" % pat)
+                else:
+                    verdict = ("undecided", "regex rewrite %r of the assembled output: colour-blindness of a general pattern is not decided" % pat)
+            elif callee.endswith("<impl str>::replace"):
+                if chars is None:
+                    verdict = ("undecided", "str::replace on the assembled output with a pattern that is not a constant")
+                else:
+                    flat = set()
+                    for c in chars:
+                        flat |= set(c[4:]) if c.startswith("str:") else {c}
+                    hit = sorted(flat & alphabet)
+                    rtxt = args[1] if len(args) > 1 else None
+                    rconst = "".join(p for p in rtxt.parts if isinstance(p, str)) if isinstance(rtxt, ccp.Tmpl) else None
+                    if hit:
+                        verdict = ("violation", "str::replace on the already colourised output rewrites %r, which occurs inside the colour codes" % hit)
+                    elif rconst is None:
+                        verdict = ("undecided", "replacement text of a str::replace on the assembled output is not a template")
+                    elif "\x1b" in rconst:
+                        verdict = ("violation", "replacement text %r inserts ESC into the output" % rconst)
+                    else:
+                        verdict = ("ok", None)
+            elif callee.startswith("regexp::"):
+                verdict = ("ok", None)      # the indenter: IND-1
+            else:
+                verdict = ("undecided", "unmodelled string rewrite %s applied to the assembled output" % callee)
+            seen[key] = verdict
+    for key, (kind, why) in sorted(seen.items()):
+        if kind == "ok":
+            ctx.ok("COL-5", "%s:%s" % (b.path, key), None, b.loc())
+        elif kind == "violation":
+            ctx.violation("COL-5", (b.path, key), why, b.loc())
+        else:
+            ctx.undecided("COL-5", (b.path, key), why, b.loc())
+    ctx.floor("COL-5", "abstract paths with colour on or undecided", coloured, 1)
+
+
 def ind1(ctx, lib):
     """the indenter's nesting decisions must not depend on colour"""
     ind = [b for b in lib.bodies if b.kind == "fn" and b.sig_output == "std::string::String" and b.sig_inputs and b.sig_inputs[0] == "std::string::String"
@@ -298,6 +382,8 @@ def run(ctx):
                       "equals the plain rendering (ccp string templates)")
     ctx.rule("COL-3", "writer/reader agreement on the SGR syntax: every constant colour code and the reset, as written by the SGR writer, fully matches the stripping pattern")
     ctx.rule("COL-4", "in every coloured component rendering the line break is outside the colour span (the indenter drops empty lines before stripping colour codes)")
+    ctx.rule("COL-5", "every rewrite pass applied to the assembled, possibly colourised output in <RegExp as Display>::fmt is colour-blind: a str::replace whose "
+                      "pattern shares no character with the colour codes and whose replacement has no ESC, or the indenter (IND-1); a regex rewrite mentioning ESC is a violation")
     ctx.rule("IND-1", "nesting decisions of the indenter are taken on the colour-stripped line (or by colour-insensitive predicates) and never on a test for the colour prefix")
     ctx.assume("whole-output equality additionally relies on PLB-1 (C06) and on the component decomposition; the indenter's plain heuristics themselves are not judged")
     prog = common.view(ctx, "default")
@@ -306,4 +392,5 @@ def run(ctx):
     col2(ctx, lib)
     col3(ctx, lib)
     ind1(ctx, lib)
+    col5(ctx, lib, roles)
     plumbing.check(ctx, lib, roles, {}, want=("colour",))
